@@ -104,6 +104,11 @@ pub struct SCfg {
     /// deadline of unscripted duplicate requests (DupReq events)
     #[serde(default = "default_dup_deadline")]
     pub dup_deadline_ms: i64,
+    /// every request crosses a serializing hop on its way in (encoded with bincode and decoded
+    /// again at the moment it is delivered): its deadline travels as the remaining duration,
+    /// an already-passed one as zero
+    #[serde(default)]
+    pub via_serde: bool,
 }
 
 fn default_dup_deadline() -> i64 {
@@ -909,7 +914,14 @@ impl World {
             }
             Ev::Deliver(k) => {
                 let r = &self.cfg.reqs[k];
-                let m = mk_request(&self.log, r.id, k as u32, r.deadline_ms);
+                let mut m = mk_request(&self.log, r.id, k as u32, r.deadline_ms);
+                if self.cfg.via_serde {
+                    let bytes = bincode::serialize(&m).expect("encode");
+                    m = bincode::deserialize(&bytes).expect("decode");
+                    // what the peer meant: its deadline, or "now" when that had already passed
+                    let meant = (r.deadline_ms as i128 * 1_000_000).max(self.log.now_ns());
+                    self.log.push(Rec::N("sent_deadline", vec![k as i128, meant]));
+                }
                 {
                     let mut st = self.st.borrow_mut();
                     st.delivered = k + 1;
